@@ -134,4 +134,35 @@ RemoveEmptyMD(t) ==
     LET u == [t EXCEPT !.a = [i \in 1..Len(t.a) |-> RemoveEmptyMD(t.a[i])]] IN
     IF IsMD(u) /\ IsEmptyDict(u.a[3]) THEN u.a[2] ELSE u
 
+---------------------------------------------------------------------------
+(* resolve_syntatic_sugar (C06).  Constructor calls: DESIGN.md A.5.          *)
+(* sig = [n fields a, b, c.., the first r required]; shape = [npos, kws];    *)
+(* rendering: i-th positional value = 10 + i, keyword value for field j =    *)
+(* 30 + j (unknown keyword zz = 39), default of field j = 20 + j.            *)
+CFNames == <<"a", "b", "c", "d">>
+CIndex(nm) == IF \E i \in 1..Len(CFNames) : CFNames[i] = nm
+              THEN CHOOSE i \in 1..Len(CFNames) : CFNames[i] = nm ELSE 0
+CInSeq(x, sq) == \E i \in 1..Len(sq) : sq[i] = x
+CtorMalformed(sig, sh) ==
+    \/ sh.npos > sig.n                                               \* more arguments than fields
+    \/ \E i \in 1..Len(sh.kws) : CIndex(sh.kws[i]) = 0 \/ CIndex(sh.kws[i]) > sig.n    \* unknown keyword
+    \/ \E i \in 1..Len(sh.kws) : CIndex(sh.kws[i]) <= sh.npos       \* field bound twice
+    \/ sh.npos + Len(sh.kws) > sig.n
+CtorOmitsRequired(sig, sh) ==
+    \E j \in (sh.npos + 1)..sig.r : ~CInSeq(CFNames[j], sh.kws)
+(* the value the dictionary must hold under field j, or absent if the field may be missing *)
+DictLookup(d, key) ==
+    LET n == Len(d.a) \div 2
+        hits == {i \in 1..n : d.a[2 * i - 1] = StrC(key)}
+    IN IF Cardinality(hits) = 1 THEN d.a[2 * (CHOOSE i \in hits : TRUE)] ELSE Absent
+CtorDictOK(sig, sh, d) ==
+    /\ d.k = "dict"
+    /\ \A i \in 1..(Len(d.a) \div 2) :
+          /\ d.a[2 * i - 1].k = "str" /\ CIndex(d.a[2 * i - 1].s) \in 1..sig.n
+          /\ \A j \in 1..(Len(d.a) \div 2) : i # j => d.a[2 * i - 1] # d.a[2 * j - 1]
+    /\ \A j \in 1..sig.n :
+          IF j <= sh.npos THEN DictLookup(d, CFNames[j]) = IntC(10 + j)
+          ELSE IF CInSeq(CFNames[j], sh.kws) THEN DictLookup(d, CFNames[j]) = IntC(30 + j)
+          ELSE DictLookup(d, CFNames[j]) \in {Absent, IntC(20 + j)}
+
 =============================================================================
